@@ -257,7 +257,59 @@ def r04_6(ctx):
     return rr
 
 
-RULES = [r04_1, r04_2, r04_3, r04_4, r04_5, r04_6]
+def r04_7(ctx):
+    """Every way out of _materialize hands back either the pin, an existing pin, or an expression
+    that still carries the raw root name."""
+    rr = RuleResult("R04.7", "PASS", "_materialize returns the RootAlias pin, an incoming RootAlias, or the expression under `expr._name == name` - on every path, whatever optimize_graph is", min_instances=2)
+    f = ctx.repo.mod("dask_array._materialize").func("_materialize")
+    cfg = cfg_of(ctx, f)
+    param = f.params[0]
+    rebinds = [s for s in cfg.stmts() if isinstance(s, ast.Assign) and any(isinstance(t, ast.Name) and t.id == param for t in s.targets)]
+    pins = [s for s in rebinds if any(isinstance(c, ast.Call) and dotted(c.func) == "RootAlias" for c in ast.walk(s.value))]
+    lowerings = [s for s in rebinds if s not in pins]
+    need(lowerings, "_materialize no longer rebinds the expression through lowering")
+
+    def name_unchanged(a, lbl, b):
+        # the False edge of `if expr._name != name` / True edge of `if expr._name == name`
+        if isinstance(a, ast.If) and isinstance(a.test, ast.Compare) and len(a.test.ops) == 1:
+            sides = {unparse(a.test.left), unparse(a.test.comparators[0])}
+            if f"{param}._name" in sides and len(sides) == 2:
+                if isinstance(a.test.ops[0], ast.NotEq):
+                    return lbl is False
+                if isinstance(a.test.ops[0], ast.Eq):
+                    return lbl is True
+        return False
+
+    for r in cfg.returns:
+        c = site(f, r)
+        v = unparse(r.value) if r.value is not None else "None"
+        rr.inst(c, returns=v)
+        if v != param:
+            if not (isinstance(r.value, ast.Call) and dotted(r.value.func) == "RootAlias"):
+                ctx.finding(rr, c, f"_materialize returns {v}", func=f, node=r)
+            continue
+        # a rewritten expression may only be returned through the pin or under an unchanged name
+        for lw in lowerings:
+            p = cfg.path_avoiding(r, blocked=lambda n: n in pins, blocked_edge=name_unchanged, start=lw)
+            if p is not None:
+                ctx.finding(rr, c, "a path returns the rewritten expression without pinning its output keys to the raw root name and without having seen that the name is unchanged: the graph would not define the advertised keys",
+                            func=f, node=r, path=[f"line {getattr(x, 'lineno', 0)}: {norm(x)}" for x in p if isinstance(x, ast.AST)][:8])
+                break
+    return rr
+
+
+def r04_8(ctx):
+    """The keys cache is dropped whenever the expression is swapped (shared with C11 R11.2)."""
+    from .c11 import r11_2
+
+    rr = r11_2(ctx)
+    rr.rule = "R04.8"
+    for fd in rr.findings:
+        fd.rule, fd.prop = "R04.8", PROP
+    return rr
+
+
+RULES = [r04_1, r04_2, r04_3, r04_4, r04_5, r04_6, r04_7, r04_8]
 
 LEVEL_TEXT = (
     "Static decision of the key-pin discipline behind C04: who-may-construct RootAlias and under which dominating guard, "
